@@ -1,12 +1,7 @@
 #!/bin/sh
-# mk_stacked.sh <base-patch (relative to /verif)> <name> "<expect>" : after editing /tmp/sc/<dir> (a scratch copy with the base applied,
-# made by tools/scratch.sh) record the edit as mutants/firing/<name>.diff stacked on the base.  usage: mk_stacked.sh base name expect dir
+# mk_stacked.sh <base-patch (relative to /verif)> <name> "<expect>" <dir>: after editing <dir> (a scratch copy made by
+# tools/scratch.sh with the base patch applied) record the uncommitted edit as mutants/firing/<name>.diff stacked on the base.
 set -e
 base="$1"; name="$2"; expect="$3"; dir="$4"
-tmp=$(mktemp -d /tmp/stk.XXXXXX)
-/verif/tools/scratch.sh /verif/$base $tmp/a >/dev/null
-mkdir $tmp/b; (cd $dir && tar --exclude=.git -cf - .) | (cd $tmp/b && tar -xf -)
-(cd $tmp && diff -ruN a b | sed 's#^--- a/#--- a/#;s#^+++ b/#+++ b/#' > $tmp/d.diff || true)
-{ echo "# expect: $expect"; echo "# base: $base"; cat $tmp/d.diff; } > /verif/mutants/firing/$name.diff
-rm -rf $tmp
+{ echo "# expect: $expect"; echo "# base: $base"; git -C "$dir" diff; } > /verif/mutants/firing/$name.diff
 grep -c '^@@' /verif/mutants/firing/$name.diff
